@@ -51,8 +51,8 @@ def dense_inv(L):
 contract(
     TP + 'expression_to_matrices', [('expression', ET)], returns=TTuple(TArr2, TArr1, TReal), pure=True,
     requires=tr_requires, ensures=dense_ens,
-    loops={1: dict(inv=dense_inv, real_vars=['cons'], mods=lambda L: {})},
-    local_types={'point1': 'Point', 'point2': 'Point'},
+    loops={1: dict(inv=dense_inv, real_vars=['cons', 0], mods=lambda L: {})},
+    local_types={'point1': 'Point', 'point2': 'Point', 5: 'Point', 6: 'Point'},
 )
 
 
@@ -132,7 +132,8 @@ def sparse_mods(L):
 contract(
     TP + 'expression_to_sparse_matrices', [('expression', ET)], returns=TTuple(TArr1i, TArr1i, TArr1, TArr1i, TArr1, TReal),
     requires=tr_requires, ensures=sparse_ens,
-    loops={1: dict(inv=sparse_inv, real_vars=['cons_val'], mods=sparse_mods)},
-    local_types={'point1': 'Point', 'point2': 'Point', 'Fweights_ind': TList(TInt), 'Fweights_val': TList(TReal),
+    loops={1: dict(inv=sparse_inv, real_vars=['cons_val', 0], mods=sparse_mods)},
+    local_types={'point1': 'Point', 'point2': 'Point', 8: 'Point', 9: 'Point', 1: TList(TInt), 2: TList(TReal), 3: TList(TInt), 4: TList(TInt), 5: TList(TReal),
+                 'Fweights_ind': TList(TInt), 'Fweights_val': TList(TReal),
                  'Gweights_indi': TList(TInt), 'Gweights_indj': TList(TInt), 'Gweights_val': TList(TReal)},
 )
